@@ -5,7 +5,7 @@
 From Coq Require Import List ZArith Permutation.
 From V Require Import Gen.Params FrameSorter.Model FrameSorter.InvCheck FrameSorter.Spec
   FrameSorter.ProofsInvOk FrameSorter.ProofsRun
-  RecvStream.Model RecvStream.Spec RecvStream.ProofsCrypto RecvStream.ProofsRecv RecvStream.ProofsRecv2.
+  RecvStream.Model RecvStream.Spec RecvStream.ProofsCrypto RecvStream.ProofsRecv RecvStream.ProofsRecv2 RecvStream.MgrRun RecvStream.ProofsMgr.
 Import ListNotations.
 Open Scope Z_scope.
 
@@ -307,6 +307,16 @@ Theorem C03_stream_buffers_once : forall S w ops r,
 Proof. exact recv_buffers_once. Qed.
 Print Assumptions C03_stream_buffers_once.
 
+(** ... and once io.EOF has been read nothing is queued and nothing is owed: every buffer
+    handed to the sorter has been released exactly once. *)
+Theorem C03_stream_buffers_all_released_at_eof : forall S w ops r,
+  0 <= w < MaxBC -> Forall rvalid ops -> NoDup (rop_cbs ops) -> rsrun S (rrun_init w) ops = Some r ->
+  rr_eof r = true ->
+  queue (sorter (rr_st r)) = [] /\ held (rr_st r) = [] /\
+  Permutation (fired (sorter (rr_st r))) (rr_acc r) /\ NoDup (fired (sorter (rr_st r))).
+Proof. exact recv_all_released_at_eof. Qed.
+Print Assumptions C03_stream_buffers_all_released_at_eof.
+
 (** Non-vacuity: RESET_STREAM_AT(final 193, reliable 100) arrives before a frame that
     straddles the reliable size; the reliable bytes are delivered, then the reset error; both
     buffers are released exactly once (the straddling frame is cut below the copy threshold,
@@ -326,3 +336,31 @@ Proof.
     eexists. vm_compute. reflexivity.
 Qed.
 Print Assumptions C03_reset_at_example.
+
+(** Crypto stream manager (crypto_stream_manager.go): CRYPTO frames are routed by encryption
+    level (0 Initial, 1 Handshake, 2 1-RTT) to independent crypto streams; for arbitrary byte
+    strings [Sf level], in every error-free history each level's GetCryptoData output is exactly
+    that level's string from offset 0 — frames of one level never reach another level's reader. *)
+Theorem C03_crypto_levels_exact : forall Sf ops r,
+  Forall mvalid ops -> mrsrun Sf mrun_init ops = Some r ->
+  mr_o0 r = slice (Sf 0) 0 (readPos (c_sorter (m_ini (mr_m r)))) /\
+  mr_o1 r = slice (Sf 1) 0 (readPos (c_sorter (m_hs (mr_m r)))) /\
+  mr_o2 r = slice (Sf 2) 0 (readPos (c_sorter (m_one (mr_m r)))).
+Proof. exact mgr_read_exact. Qed.
+Print Assumptions C03_crypto_levels_exact.
+
+Theorem C03_crypto_unexpected_level : forall Sf m l off n, l <> 0 -> l <> 1 -> l <> 2 ->
+  mcore Sf m (MFrame l off n) = (m, MUnexpectedLevel, [], false).
+Proof. exact mgr_unexpected_level. Qed.
+Print Assumptions C03_crypto_unexpected_level.
+
+Example C03_crypto_levels_example :
+  let ops := [MFrame 1 0 10; MFrame 0 0 4; MGet 1; MFrame 2 0 3; MGet 0; MDrop 0; MGet 2] in
+  Forall mvalid ops /\ exists r, mrsrun lbyte mrun_init ops = Some r /\
+    mr_o0 r = slice (lbyte 0) 0 4 /\ mr_o1 r = slice (lbyte 1) 0 10 /\ mr_o2 r = slice (lbyte 2) 0 3.
+Proof.
+  cbv zeta. split.
+  - repeat constructor; solve [vm_compute; first [reflexivity | intro; discriminate]].
+  - eexists. split; [vm_compute; reflexivity|]. repeat split; vm_compute; reflexivity.
+Qed.
+Print Assumptions C03_crypto_levels_example.
